@@ -11,19 +11,19 @@ Ltac Zify.zify_post_hook ::= Z.to_euclidean_division_equations.
 Open Scope nat_scope.
 
 Lemma gen_seq_next_eq seq wc na a : gen_seq_next seq wc na a = ((seq + 1) mod 256)%N.
-Proof. reflexivity. Qed.
+Proof. unfold gen_seq_next. py_arith. Qed.
 
 Lemma gen_wait_init_eq seq wc na a : gen_wait_init seq wc na a = retry_budget.
-Proof. reflexivity. Qed.
+Proof. unfold gen_wait_init. py_arith. Qed.
 
 Lemma gen_wait_dec_eq seq wc na a : gen_wait_dec seq wc na a = wc - 1.
-Proof. reflexivity. Qed.
+Proof. unfold gen_wait_dec. py_arith. Qed.
 
 Lemma gen_wait_spent_eq seq wc na a : gen_wait_spent seq wc na a = (wc <=? 0).
-Proof. reflexivity. Qed.
+Proof. unfold gen_wait_spent. py_arith. Qed.
 
 Lemma gen_wait_again_eq seq wc na a : gen_wait_again seq wc na a = (na || negb (a =? seq)%N).
-Proof. reflexivity. Qed.
+Proof. unfold gen_wait_again. py_arith. Qed.
 
 (** the counter never underflows while the loop runs (it is tested right after each decrement) *)
 Lemma gen_wait_dec_pre_ok seq wc na a : 1 <= wc -> gen_wait_dec_pre seq wc na a.
